@@ -34,14 +34,14 @@ CLAIMED = {
   "Mock devices stand in for real cameras/storage; ring capacities are shrunk through the channel_new link seam; sync-level preemption granularity (every lock/cond/thread/sleep call, every device call entry and exit, every log call)."),
  "C05": ("exploration", "DESIGN.md §4 C05",
   "deterministic simulation: an independent chain walker checks every packet at storage append and at every acquire_map_read (alignment, size field, exact landing, camera-reported shape)",
-  "Same executions as C04/C06 with an inline oracle on every packet boundary the runtime exposes; generated shapes cover all residues of the image size mod 8, wrap positions vary with the ring capacity, the client consumes partially.",
+  "Same executions as C04/C06, plus the fault profile of C09 (a camera or storage call failing at an enumerated frame index), with an inline oracle on every packet boundary the runtime exposes; generated shapes cover all residues of the image size mod 8, wrap positions vary with the ring capacity, the client consumes partially.",
   "As C04."),
  "C06": ("exploration", "DESIGN.md §4 C06",
   "deterministic simulation with a generated monitoring client thread (poll period, partial consumption, long holds, late start, early stop) over sequences of acquisitions ended by stop or abort; frames attributed to camera frames by keyed hash and epoch",
   "Seeded search over client behaviours and schedules; oracles: consecutive frame ids per acquisition, exact pixels, region unchanged while held, nothing of a finished acquisition delivered to a map invoked after its stop/abort returned, map/unmap by a well-behaved client always succeed. Four genuine findings remain open (known_findings.txt) and are reported as KNOWN-FINDING; any other violation fails the check.",
   "As C04. The client is well behaved (map then unmap, one thread per stream)."),
  "C07": ("exploration", "DESIGN.md §4 C07",
-  "deterministic simulation: stop/abort from the client or a third thread at seeded instants (camera waiting for a trigger, ring full, client holding a region, infinite acquisitions); progress-based step budgets and deadlock detection with a wait-for graph; thread table and device logs checked on return; follow-up acquisition judged by C04's oracle",
+  "deterministic simulation: stop/abort from the client or a third thread at seeded instants (camera waiting for a trigger, ring kept full by a monitoring client that walked away, client holding a region, infinite acquisitions; threads held between evaluating a wait predicate and being enqueued as waiters); progress-based step budgets and deadlock detection with a wait-for graph; thread table and device logs checked on return; follow-up acquisition judged by C04's oracle",
   "Bounded liveness by seeded search: a stop/abort that has not returned after 300000 scheduling steps without any frame, append or thread exit is a violation, as is any instant with all threads blocked. On return: no runtime thread alive, camera and storage driver-stopped, state Armed, storage holds a gap-free prefix; the next acquisition must be complete and correct.",
   "As C04. Client threads coordinate among themselves (no API call overlaps acquire_start/configure)."),
  "C08": ("exploration", "DESIGN.md §4 C08",
@@ -57,11 +57,11 @@ CLAIMED = {
   "Seeded search over window sizes, integer sample types, shapes, frame counts, ring capacities and schedules of source, filter and sink; oracle: floor(N/k) complete windows (at most one extra frame), ids of the windows' first frames, every pixel within 2 ulp of the true mean of the k specific camera frames.",
   "As C04."),
  "C14": ("exploration", "DESIGN.md §4 C14",
-  "seeded set/start/append/stop histories on the real raw writer through the real HAL and the real write-all loop of platform.c, over a simulated file layer that returns short and zero-length writes; file bytes compared with the concatenation of the appended packets",
+  "seeded set/start/append/stop histories on the real raw writer through the real HAL and the real write-all loop of platform.c, over a simulated file layer that returns short and zero-length writes and holds multi-GiB files sparsely (a `huge` profile grows one file past 4 GiB); file bytes compared with the concatenation of the appended packets",
   "Seeded search over histories (1-2 devices, 1-4 acquisitions each to a fresh path, every URI spelling, packet groupings, frame sizes) and over OS write behaviours (random short writes of every length, spaced zero-length writes); after each stop the file at the prefix-stripped path must equal the bytes appended in that acquisition.",
   "Every acquisition uses a fresh path (files are created without truncation). Failing writes belong to C16."),
  "C15": ("exploration", "DESIGN.md §4 C15",
-  "seeded histories on the real tiff and tiff-json writers over the simulated file layer; produced bytes parsed by an independent BigTIFF reader and JSON parser written from the specifications",
+  "seeded histories on the real tiff and tiff-json writers over the simulated file layer (incl. a `huge` profile whose file grows past 4 GiB, held sparsely); produced bytes parsed by an independent BigTIFF reader and JSON parser written from the specifications",
   "Seeded search over shapes, all sample types, frame counts, packet groupings, metadata, pixel scales, URI spellings, both device kinds and repeated start/stop cycles; oracle = exactly the stated clauses (header, chain length and zero link, offsets inside the file, no overlapping structures, width/height/bits/sample format per directory, strip bytes, description JSON with ids and timestamps, metadata on frame 0 or in metadata.json).",
   "Tag order, optional tags and resolution values are not judged. tiff-json is always given metadata (it rejects an empty one at set, which is input validation)."),
  "C16": ("fault_enumeration", "DESIGN.md §4 C16",
